@@ -64,3 +64,46 @@ Definition dp_trace (aw wra wrb : Z) :=
 Definition ar_trace (w : Z) :=
   mtrace (fun s (_ : list Z) => ar_step w s) nopre (fun s _ => [ar_out s; AutoReset_s_state (fst s)]) ar_init.
 (* ---- comparison with the implementation's rows: Some (step, (column, impl, ours)) at the first difference *)
+(* ---- the same machines observed inside a larger design (see etrace): generated from the definitions above *)
+Definition reg_etrace (w : Z) (he hr : bool) (rv : Z) :=
+  etrace (fun c i => match i with [d; e; r] => reg_m w he hr rv c (d, e, r) | _ => c end) nopre
+        (fun c _ => [cell_q c; cell_value c]) (cell_init w rv).
+Definition treg_etrace (wq : Z) (he hr : bool) :=
+  etrace (fun c i => match i with [t; e; r] => treg_m wq he hr c (t, e, r) | _ => c end) nopre
+        (fun c _ => [cell_q c; cell_value c]) cell_zero.
+Definition counter_etrace (w : Z) (hi hr : bool) :=
+  etrace (fun c i => match i with [r; n] => counter_m w hi hr c (r, n) | _ => c end) nopre
+        (fun c _ => [cell_q c; cell_value c]) cell_zero.
+Definition modcounter_etrace (w wc m : Z) :=
+  etrace (fun c i => match i with [r; n] => modcounter_m w wc m c (r, n) | _ => c end) nopre
+        (fun c _ => [cell_q c; modcounter_carry w wc m c; cell_value c]) cell_zero.
+Definition stepup_etrace (w : Z) (hr : bool) :=
+  etrace (fun c i => match i with [r; n; st] => stepup_m w hr c (r, n, st) | _ => c end) nopre
+        (fun c _ => [cell_q c; cell_value c]) cell_zero.
+Definition delay_etrace (w wr : Z) (he hr : bool) (delay : nat) :=
+  etrace (fun cs i => match i with [a; e; r] => delay_m w he hr cs (a, e, r) | _ => cs end)
+        (fun cs i => [delay_out wr cs (hd 0 i)])
+        (fun cs i => delay_out wr cs (hd 0 i) :: cells_obs cs) (delay_init delay).
+Definition pipe_etrace (ws : list Z) :=
+  etrace (fun cs i => pipe_m ws cs (removelast i, last i 0)) nopre (fun cs _ => cells_obs cs) (pipe_init ws).
+Definition edge_etrace (dir : direction) (wr : Z) :=
+  etrace (fun c i => edge_step c (hd 0 i)) (fun c i => [edge_out dir wr c (hd 0 i)])
+        (fun c i => [edge_out dir wr c (hd 0 i); cell_q c; cell_value c]) cell_zero.
+Definition clkdiv_etrace (n qw wclk : Z) (hr : bool) :=
+  etrace (fun s i => clkdiv_step n qw wclk hr s (hd 0 i)) nopre
+        (fun s _ => [clkdiv_out s; cell_q (fst s); modcounter_carry qw 1 n (fst s); cell_value (fst s); cell_value (snd s)])
+        clkdiv_init.
+Definition srb_etrace (w : Z) (depth : nat) :=
+  etrace (fun cs i => match i with [li; ri; sl; sr] => srb_m w cs (li, ri, sl, sr) | _ => cs end) nopre
+        (fun cs _ => srb_left_out w cs :: srb_right_out w cs :: cells_obs cs) (srb_init depth).
+Definition stack_etrace (w : Z) (depth : nat) :=
+  etrace (fun s i => match i with [d; pu; po] => stack_m w s (d, pu, po) | _ => s end) nopre
+        (fun s _ => stack_dout s :: cells_obs (fst s) ++ [cell_value (snd s)]) (stack_init depth).
+Definition mem_etrace (aw wr : Z) :=
+  etrace (fun s i => match i with [ra; wa; we; wd] => mem_m wr s (ra, wa, we, wd) | _ => s end) nopre
+        (fun s _ => mem_out s :: mem_data s) (mem_init aw).
+Definition dp_etrace (aw wra wrb : Z) :=
+  etrace (fun s i => match i with [raa; waa; wa; wda; rab; wab; wb; wdb] => dp_step wra wrb s ((raa, waa, wa, wda), (rab, wab, wb, wdb)) | _ => s end) nopre
+        (fun s _ => dp_out_a s :: dp_out_b s :: dp_data s) (dp_init aw).
+Definition ar_etrace (w : Z) :=
+  etrace (fun s (_ : list Z) => ar_step w s) nopre (fun s _ => [ar_out s; AutoReset_s_state (fst s)]) ar_init.
